@@ -83,7 +83,7 @@ def load_baseline():
         return {}
 
 
-def file_into(rep: Report, prop: str, tier: str, kinds=None, only=None):
+def file_into(rep: Report, prop: str, tier: str, kinds=None, only=None, all_contracts=False):
     """adds the obligations of every contract that serves `prop`"""
     from engine.contract import REGISTRY
     from engine.run_e1 import load_contracts
@@ -92,7 +92,7 @@ def file_into(rep: Report, prop: str, tier: str, kinds=None, only=None):
     base = load_baseline()
     n = 0
     for name, c in REGISTRY.items():
-        if prop not in c.properties:
+        if prop not in c.properties and not all_contracts:
             continue
         if only and name.split(":")[1] not in only:
             continue
